@@ -228,6 +228,8 @@ MUTANTS = [
     ("true-divide-jvp-sign", {"C02": "A5.alias"}, [(NJ, 'defjvp(anp.true_divide, "same", lambda g, ans, x, y: -g * x / y**2)', 'defjvp(anp.true_divide, "same", lambda g, ans, x, y: g * x / y**2)')]),
     ("sparse-add-returns-accumulator", {"C11": "A9.pure", "C10": "A9.pure"}, [(CO, "    x_prev = x_prev if x_prev is not None else vs.zeros()\n    return x_new.mut_add(x_prev)", "    x_prev = x_prev if x_prev is not None else vs.zeros()\n    x_new.mut_add(x_prev)\n    return x_prev")]),
     ("ggnvp-jvp-of-argument-zero", {"C16": "A15.products"}, [(DO, "        f_vjp, f_x = _make_vjp(f, x)\n        g_hvp, grad_g_x = _make_vjp(grad(g), f_x)", "        f_vjp, f_x = _make_vjp(f, x)\n        g_hvp, grad_g_x = _make_vjp(grad(g), x)")]),
+    ("sort-jvp-drops-kind", {"C02": "A2.drop", "C04": "A2.drop"}, [(NJ, "    sort_perm = anp.argsort(x, axis, kind, order)", "    sort_perm = anp.argsort(x, axis=axis, order=order)")]),
+    ("atleast-declared-linear-in-all-arguments", {"C02": "A1.lin"}, [(NJ, "defjvp(anp.atleast_1d, atleast_jvpmaker(anp.atleast_1d))", "def_linear(anp.atleast_1d)")]),
     ("container-space-loses-subval", {"C12": "A1.spaces"}, [(BU, "    def _subval(self, xs, idx, x):\n        d = dict(xs.items())\n        d[idx] = x\n        return d\n", "")]),
 ]
 
